@@ -287,12 +287,12 @@ func (x *Exec) native(name string, fn *ssa.Function, args []Value) (Value, bool)
 					if bad {
 						panic(panicPath{"regexp.MustCompile panics: pattern is not a valid regexp (contract)"})
 					}
-					return Ptr{o: &Cell{v: Native{"symbolic-regexp"}}}, true
+					return Ptr{o: &Cell{v: Native{x.symRegexp(pat)}}}, true
 				}
 				if bad {
 					return Tuple{Ptr{}, x.newError("error parsing regexp")}, true
 				}
-				return Tuple{Ptr{o: &Cell{v: Native{"symbolic-regexp"}}}, Iface{}}, true
+				return Tuple{Ptr{o: &Cell{v: Native{x.symRegexp(pat)}}}, Iface{}}, true
 			}
 		}
 		re, err := regexp.Compile(mustStr(args[0]))
@@ -320,6 +320,15 @@ func (x *Exec) native(name string, fn *ssa.Function, args []Value) (Value, bool)
 			return x.intSlice(loc), true
 		}
 		if !isRe {
+			// a quoted one-byte literal (what RS = one byte compiles to): the first occurrence of that byte
+			if lit, ok := args[0].(Ptr).o.(*Cell).v.(Native).v.(*symLiteralRegexp); ok {
+				for i, b := range bs {
+					if x.branch(bvcmp("=", b, lit.b)) {
+						return x.intSlice([]int{i, i + 1}), true
+					}
+				}
+				return SliceV{}, true
+			}
 			panic(abortPath{"FindIndex on a symbolic-pattern regexp", false})
 		}
 		model := x.harnessPkg.Func("verifRegexFindIndex")
@@ -659,6 +668,17 @@ func rePattern(re *regexp.Regexp) string {
 }
 
 // intSlice builds a []int value (nil for a nil Go slice)
+// symLiteralRegexp is a regexp compiled from the QuoteMeta form of one symbolic byte
+type symLiteralRegexp struct{ b *Term }
+
+// symRegexp is the native value of a regexp compiled from a symbolic pattern
+func (x *Exec) symRegexp(pat *Str) interface{} {
+	if x.quoted[pat] && (len(pat.b) == 1 || (len(pat.b) == 2 && pat.b[0].isC && pat.b[0].c == '\\')) {
+		return &symLiteralRegexp{b: pat.b[len(pat.b)-1]}
+	}
+	return "symbolic-regexp"
+}
+
 func (x *Exec) intSlice(v []int) Value {
 	if v == nil {
 		return SliceV{}
@@ -737,7 +757,19 @@ func (x *Exec) opaqueEq(a, b *OpaqueStr) *Term {
 		for i := range a.args {
 			ai, aok := a.args[i].(Iface)
 			bi, bok := b.args[i].(Iface)
-			if !aok || !bok || ai.t == nil || bi.t == nil || !types.Identical(ai.t, bi.t) {
+			if !aok || !bok || ai.t == nil || bi.t == nil {
+				return Bool(false)
+			}
+			if !types.Identical(ai.t, bi.t) {
+				// integers of different width but equal signedness and value print the same digits
+				aw, as := width(ai.t)
+				bw, bs := width(bi.t)
+				at, aIsT := ai.v.(*Term)
+				bt, bIsT := bi.v.(*Term)
+				if aw > 0 && bw > 0 && as == bs && aIsT && bIsT && !at.sort.Bool && !bt.sort.Bool {
+					r = And(r, bvcmp("=", Extend(at, 64, as), Extend(bt, 64, bs)))
+					continue
+				}
 				return Bool(false)
 			}
 			r = And(r, x.sameVal(ai.v, bi.v))
